@@ -396,7 +396,7 @@ Lemma sim_render_content l :
   forallb nohj_tok l = true -> SimM Rseq (render_content orc ctxkeys l) (render_content_b orc ctxkeys l).
 Proof.
   intros Hn. unfold render_content, render_content_b. apply sim_seqr. apply PL_ST; [|exact Hn].
-  apply tokens_ind'; intros; first [ apply sim_render_tok ].
+  unfold PL. apply Forall_forall. intros t _. apply sim_render_tok.
 Qed.
 
 Lemma sim_render_choice_text c :
@@ -463,7 +463,7 @@ Proof.
   - inversion E; subst. constructor.
   - inversion Hd; subst. destruct (split_dirs r) as [[cs i0] rs] eqn:Er.
     specialize (IH _ _ _ H2 eq_refl).
-    destruct d; inversion E; subst; auto. constructor; [exact H1|exact IH].
+    destruct d; inversion E; subst; auto.
 Qed.
 
 Definition Rout (o ob : output) : Prop := o = ob /\ plain_output o.
@@ -625,7 +625,8 @@ Proof. intros [H1 H2 H3 H4 H5 H6 H7]. constructor; simpl; auto. Qed.
 Lemma sim_undo e eb :
   sim_es e eb -> sim_es (fst (undo e)) (fst (undo_b eb)) /\ snd (undo e) = snd (undo_b eb).
 Proof.
-  intros [Hc Hu Hr Hsc Hl]. unfold undo, undo_b. destruct Hu as [|p pb r rb Hp Hrest]; simpl.
+  destruct e as [c u r sc l], eb as [cb ub rb scb lb]. intros [Hc Hu Hr Hsc Hl]. unfold undo, undo_b. simpl in *.
+  destruct Hu as [|p pb u' ub' Hp Hrest]; simpl.
   - split; [constructor; simpl; auto|reflexivity].
   - split; [|reflexivity]. constructor; simpl; auto. apply simc_restore. exact Hp.
 Qed.
@@ -633,7 +634,8 @@ Qed.
 Lemma sim_redo e eb :
   sim_es e eb -> sim_es (fst (redo e)) (fst (redo_b eb)) /\ snd (redo e) = snd (redo_b eb).
 Proof.
-  intros [Hc Hu Hr Hsc Hl]. unfold redo, redo_b. destruct Hr as [|p pb r rb Hp Hrest]; simpl.
+  destruct e as [c u r sc l], eb as [cb ub rb scb lb]. intros [Hc Hu Hr Hsc Hl]. unfold redo, redo_b. simpl in *.
+  destruct Hr as [|p pb r' rb' Hp Hrest]; simpl.
   - split; [constructor; simpl; auto|reflexivity].
   - split; [|reflexivity]. constructor; simpl; auto; [apply simc_restore; exact Hp|apply sim_push50; assumption].
 Qed.
@@ -679,7 +681,8 @@ Qed.
 Lemma sim_view e eb : sim_es e eb -> forget_hj (view_of e) = forget_hj (view_of_b eb).
 Proof.
   intros H. unfold view_of, view_of_b, forget_hj. simpl. rewrite <- (sim_current_out e eb H).
-  destruct H as [[H1 H2 H3 H4 H5 H6 H7] Hu Hr Hsc Hl]. rewrite H1, H2, H3, Hsc.
+  destruct e as [c u r sc l], eb as [cb ub rb scb lb].
+  destruct H as [[H1 H2 H3 H4 H5 H6 H7] Hu Hr Hsc Hl]. simpl in *. rewrite H1, H2, H3, Hsc.
   f_equal.
   - destruct Hu; reflexivity.
   - destruct Hr; reflexivity.
@@ -687,6 +690,9 @@ Qed.
 
 Definition sim_slot (a b : option core) : Prop :=
   match a, b with Some c, Some cb => simc c cb | None, None => True | _, _ => False end.
+
+Lemma fhs_cons b v l : map forget_hj_step ((b, v) :: l) = (b, forget_hj v) :: map forget_hj_step l.
+Proof. reflexivity. Qed.
 
 Lemma sim_run_slot ops : forall e eb slot slotb,
   sim_es e eb -> sim_slot slot slotb ->
@@ -697,31 +703,27 @@ Proof.
              sim_es e' eb' ->
              map forget_hj_step ((b, view_of e') :: run_slot orc ctxkeys st e' slot ops) =
              map forget_hj_step ((b, view_of_b eb') :: run_slot_b orc ctxkeys st eb' slotb ops)).
-  { intros e' eb' b H'. simpl. unfold forget_hj_step at 1 3. simpl. rewrite (sim_view e' eb' H').
-    f_equal. apply IH; assumption. }
+  { intros e' eb' b H'. rewrite !fhs_cons. rewrite (sim_view e' eb' H'). f_equal. apply IH; assumption. }
+  assert (Hstep : forall o,
+             map forget_hj_step (let '(e', b) := step orc ctxkeys st e o in
+                                 (b, view_of e') :: run_slot orc ctxkeys st e' slot ops) =
+             map forget_hj_step (let '(e', b) := step_b orc ctxkeys st eb o in
+                                 (b, view_of_b e') :: run_slot_b orc ctxkeys st e' slotb ops)).
+  { intros o0. destruct (sim_step e eb o0 H) as [Hst1 Hst2].
+    destruct (step orc ctxkeys st e o0) as [e1 b1], (step_b orc ctxkeys st eb o0) as [eb1 bb1].
+    simpl in Hst1, Hst2. subst bb1. apply Hgen. exact Hst1. }
   destruct o;
-    try (pose proof (sim_step e eb _ H) as Hst;
-         match type of Hst with
-         | context [step orc ctxkeys st e ?o] =>
-             change (run_slot orc ctxkeys st e slot (o :: ops))
-               with (let '(e', b) := step orc ctxkeys st e o in (b, view_of e') :: run_slot orc ctxkeys st e' slot ops);
-             change (run_slot_b orc ctxkeys st eb slotb (o :: ops))
-               with (let '(e', b) := step_b orc ctxkeys st eb o in
-                     (b, view_of_b e') :: run_slot_b orc ctxkeys st e' slotb ops);
-             destruct Hst as [Hst1 Hst2];
-             destruct (step orc ctxkeys st e o) as [e1 b1], (step_b orc ctxkeys st eb o) as [eb1 bb1];
-             simpl in Hst1, Hst2; subst bb1; apply Hgen; exact Hst1
-         end).
+    try (match goal with |- context [run_slot _ _ _ _ _ (?o1 :: _)] => exact (Hstep o1) end).
   - (* OpSave *)
-    simpl. unfold forget_hj_step at 1 3. simpl. rewrite (sim_view e eb H). f_equal.
+    cbn [run_slot run_slot_b]. rewrite !fhs_cons. rewrite (sim_view e eb H). f_equal.
     apply IH; [exact H|]. simpl. apply (se_core _ _ H).
   - (* OpLoad *)
-    simpl. destruct slot as [c|], slotb as [cb|]; simpl in Hsl; try contradiction.
+    cbn [run_slot run_slot_b]. destruct slot as [c|], slotb as [cb|]; simpl in Hsl; try contradiction.
     + assert (H' : sim_es (mkES c [] [] (escopes e) (elog e))
                           (mkES (restore_b cb (ec eb)) [] [] (escopes eb) (elog eb))).
       { destruct H as [Hc Hu Hr Hsc Hl]. constructor; simpl; auto. apply simc_restore. exact Hsl. }
-      unfold forget_hj_step at 1 3. simpl. rewrite (sim_view _ _ H'). f_equal. apply IH; [exact H'|exact Hsl].
-    + unfold forget_hj_step at 1 3. simpl. rewrite (sim_view e eb H). f_equal. apply IH; [exact H|exact I].
+      cbv zeta. rewrite !fhs_cons. rewrite (sim_view _ _ H'). f_equal. apply IH; [exact H'|exact Hsl].
+    + rewrite !fhs_cons. rewrite (sim_view e eb H). f_equal. apply IH; [exact H|exact I].
 Qed.
 
 Lemma sim_init v0 :
@@ -744,19 +746,48 @@ Theorem browser_sim v0 ops :
 Proof.
   unfold run_all, run_all_b. destruct (sim_init v0) as [H1 H2].
   destruct (init orc ctxkeys st v0) as [e0 [a|x]], (init_b orc ctxkeys st v0) as [eb0 [b|y]];
-    simpl in *; try discriminate.
-  - unfold forget_hj_step at 1 3. simpl. rewrite (sim_view _ _ H1). f_equal.
+    simpl in H1, H2; try discriminate; cbv beta iota.
+  - rewrite !fhs_cons. rewrite (sim_view _ _ H1). f_equal.
     unfold run, run_b. apply sim_run_slot; [exact H1|exact I].
-  - inversion H2; subst. unfold forget_hj_step. simpl. rewrite (sim_view _ _ H1). reflexivity.
+  - inversion H2; subst. rewrite !fhs_cons. rewrite (sim_view _ _ H1). reflexivity.
 Qed.
 
-(* the invariant by itself: on a common story no reachable state of the MAIN model has a hook registered, a non-zero
-   join index or a '-> @join' choice on offer (every related pair satisfies it and every run stays related) *)
-Lemma main_inv_step e eb o :
-  sim_es e eb ->
-  hooks (ec (fst (step orc ctxkeys st e o))) = [] /\ all_zero (joinidx (ec (fst (step orc ctxkeys st e o)))).
+(* the invariant by itself: on a common story NO reachable state of the MAIN model has a hook registered or a non-zero
+   join index - what the fork lacks is never used *)
+Definition hj_idle (x : obs * view) : Prop := v_hooks (snd x) = [] /\ all_zero (v_join (snd x)).
+
+Lemma sim_hj_idle e eb b : sim_es e eb -> hj_idle (b, view_of e).
+Proof. intros [Hc _ _ _ _]. split; simpl; [apply (sc_hooks _ _ Hc)|apply (sc_join _ _ Hc)]. Qed.
+
+Lemma idle_run_slot ops : forall e eb slot slotb,
+  sim_es e eb -> sim_slot slot slotb -> Forall hj_idle (run_slot orc ctxkeys st e slot ops).
 Proof.
-  intros H. destruct (sim_step e eb o H) as [[Hc _ _ _ _] _]. split; [apply (sc_hooks _ _ Hc)|apply (sc_join _ _ Hc)].
+  induction ops as [|o ops IH]; intros e eb slot slotb H Hsl; [constructor|].
+  assert (Hstep : forall o,
+             Forall hj_idle (let '(e', b) := step orc ctxkeys st e o in
+                             (b, view_of e') :: run_slot orc ctxkeys st e' slot ops)).
+  { intros o0. destruct (sim_step e eb o0 H) as [Hst1 _].
+    destruct (step orc ctxkeys st e o0) as [e1 b1]. simpl in Hst1.
+    constructor; [eapply sim_hj_idle; exact Hst1|eapply IH; eauto]. }
+  destruct o;
+    try (match goal with |- context [run_slot _ _ _ _ _ (?o1 :: _)] => exact (Hstep o1) end).
+  - cbn [run_slot]. constructor; [eapply sim_hj_idle; exact H|].
+    apply (IH e eb (Some (ec e)) (Some (ec eb))); [exact H|]. simpl. apply (se_core _ _ H).
+  - cbn [run_slot]. destruct slot as [c|], slotb as [cb|]; simpl in Hsl; try contradiction.
+    + assert (H' : sim_es (mkES c [] [] (escopes e) (elog e))
+                          (mkES (restore_b cb (ec eb)) [] [] (escopes eb) (elog eb))).
+      { destruct H as [Hc Hu Hr Hsc Hl]. constructor; simpl; auto. apply simc_restore. exact Hsl. }
+      cbv zeta. constructor; [eapply sim_hj_idle; exact H'|].
+      eapply IH with (slotb := Some cb); [exact H'|exact Hsl].
+    + constructor; [eapply sim_hj_idle; exact H|]. apply (IH e eb None None); [exact H|exact I].
+Qed.
+
+Theorem main_hooks_join_idle v0 ops : Forall hj_idle (run_all orc ctxkeys st v0 ops).
+Proof.
+  unfold run_all. destruct (sim_init v0) as [H1 _].
+  destruct (init orc ctxkeys st v0) as [e0 [a|x]]; simpl in H1.
+  - constructor; [eapply sim_hj_idle; exact H1|]. unfold run. eapply idle_run_slot with (slotb := None); [exact H1|exact I].
+  - constructor; [eapply sim_hj_idle; exact H1|constructor].
 Qed.
 
 End WithOracle.
@@ -764,3 +795,33 @@ End WithOracle.
 (* the browser views already carry empty hooks / join: forgetting them changes nothing *)
 Lemma forget_view_of_b e : forget_hj (view_of_b e) = view_of_b e.
 Proof. reflexivity. Qed.
+
+Lemma forget_run_slot_b orc ctxkeys st ops : forall e slot,
+  map forget_hj_step (run_slot_b orc ctxkeys st e slot ops) = run_slot_b orc ctxkeys st e slot ops.
+Proof.
+  induction ops as [|o ops IH]; intros e slot; [reflexivity|].
+  assert (Hstep : forall o,
+             map forget_hj_step (let '(e', b) := step_b orc ctxkeys st e o in
+                                 (b, view_of_b e') :: run_slot_b orc ctxkeys st e' slot ops) =
+             (let '(e', b) := step_b orc ctxkeys st e o in
+              (b, view_of_b e') :: run_slot_b orc ctxkeys st e' slot ops)).
+  { intros o0. destruct (step_b orc ctxkeys st e o0) as [e1 b1]. rewrite fhs_cons, forget_view_of_b, IH. reflexivity. }
+  destruct o;
+    try (match goal with |- context [run_slot_b _ _ _ _ _ (?o1 :: _)] => exact (Hstep o1) end).
+  - cbn [run_slot_b]. rewrite fhs_cons, forget_view_of_b, IH. reflexivity.
+  - cbn [run_slot_b]. destruct slot as [c|]; cbv zeta; rewrite fhs_cons, forget_view_of_b, IH; reflexivity.
+Qed.
+
+Lemma forget_run_all_b orc ctxkeys st v0 ops :
+  map forget_hj_step (run_all_b orc ctxkeys st v0 ops) = run_all_b orc ctxkeys st v0 ops.
+Proof.
+  unfold run_all_b. destruct (init_b orc ctxkeys st v0) as [e0 [a|x]].
+  - rewrite fhs_cons, forget_view_of_b. unfold run_b. rewrite forget_run_slot_b. reflexivity.
+  - reflexivity.
+Qed.
+
+(* the same refinement, read as: the browser model's run IS the main model's run with hooks / join erased *)
+Theorem browser_sim_erased orc ctxkeys st :
+  common_story st = true ->
+  forall v0 ops, run_all_b orc ctxkeys st v0 ops = map forget_hj_step (run_all orc ctxkeys st v0 ops).
+Proof. intros H v0 ops. rewrite (browser_sim orc ctxkeys st H). symmetry. apply forget_run_all_b. Qed.
